@@ -75,6 +75,16 @@ def jobs(tier):
                             members=[[True]], cache=1, n=2, unroll=8), B)]:
         jobs.append(Job('harness.bound_io:' + h, cfg, pkg_key='bounds',
                         block=blk, max_paths=6000))
+    # the empty unit-cube shell was removed: the first bound is a nautilus
+    # bound whose sampling progress must reach the file as well
+    add(dict(m=[1, 1], explored=True, end_exp=[1, 1], n_batch=1, K=1,
+             first_removed=True))
+    # the view is switched between two run() slices; the next batch boundary
+    # must be resumable with the switched view
+    add(dict(m=[1, 1], explored=True, end_exp=[1, 1], n_batch=1, K=1,
+             toggle_before=True))
+    add(dict(m=[2, 1], explored=True, end_exp=[1, 1], discard=True,
+             n_batch=1, K=1, toggle_before=True))
     if thorough:
         add(dict(m=[1, 1], explored=True, end_exp=[1, 0], discard=True,
                  n_batch=1, K=2))
